@@ -14,6 +14,7 @@
 # See the License for the specific language governing permissions and
 # limitations under the License.
 
+import builtins
 import contextlib
 import marshal
 import math
@@ -312,11 +313,12 @@ class UserFcn:
                         except AttributeError:
                             (v,) = varname  # otherwise, use the one and only variable
                             if v is None:  # as the object (only discover it once)
-                                v = set(c.co_names) - set(context.keys())
+                                # (names of builtins - abs, min, max, round, ... - are known to eval as well)
+                                v = set(c.co_names) - set(context.keys()) - set(dir(builtins))
                                 if len(v) > 1:
                                     raise NameError(
                                         "more than one unrecognized variable names in single-argument "
-                                        f"function: {set(c.co_names) - set(context.keys())}"
+                                        f"function: {v}"
                                     )
                                 v = None if len(v) == 0 else list(v)[0]
 
